@@ -103,6 +103,45 @@ theorem decode_count (fuel : Nat) (x : Json) (pn : Option String) (t : Agg)
       exact ⟨e, he, by simpa using hlt, rfl⟩
   · cases h
 
+/-- every result of the option computation `o` is a Bag leaf whose values are pairwise distinct -/
+def BagGood (o : Option Agg) : Prop :=
+  ∀ t, o = some t → ∃ q r vals, t.kind = .bag q r ∧ t.st = .bag vals ∧ (vals.map (·.1)).Nodup
+
+theorem BagGood.none : BagGood none := by intro t h; cases h
+theorem BagGood.bind {α} {o : Option α} {f : α → Option Agg}
+    (hf : ∀ a, o = some a → BagGood (f a)) : BagGood (o.bind f) := by
+  intro t h
+  cases o with
+  | none => cases h
+  | some a => exact hf a rfl t h
+
+theorem BagGood.guard {q r e} {vals : List (BKey × Val)} :
+    BagGood (if (!decide (vals.map (·.1)).Nodup) = true then Option.none
+             else Option.some (.node (.bag q r) e (.bag vals) Option.none [])) := by
+  intro t h
+  split at h
+  · cases h
+  · rename_i hnd
+    cases h
+    exact ⟨_, _, _, rfl, rfl, by simpa using hnd⟩
+
+/-- a Bag document that lists the same value twice is rejected -/
+theorem decode_bag_nodup (fuel : Nat) (m : List (String × Json)) (pn : Option String) (t : Agg)
+    (h : decodeFrag (fuel + 1) "Bag" (.obj m) pn = some t) :
+    ∃ q r vals, t.kind = .bag q r ∧ t.st = .bag vals ∧ (vals.map (·.1)).Nodup := by
+  unfold decodeFrag at h
+  simp only at h
+  split at h
+  · cases h
+  · revert t
+    show BagGood _
+    simp only [Option.bind_eq_bind, Option.pure_def]
+    repeat' first
+      | exact BagGood.none
+      | (apply BagGood.bind; intro _ _)
+      | (apply BagGood.guard)
+      | split
+
 /-- the decoded container has the primitive type the document names -/
 theorem decode_typeName (fuel : Nat) (ty : String) (j : Json) (pn : Option String) (t : Agg)
     (h : decodeFrag fuel ty j pn = some t) : t.typeName = ty := by
